@@ -38,7 +38,7 @@ Theorem C05_ended_rejects :
 Proof. exact ended_rejects. Qed.
 
 (* at-most-once effect, for every reachable engine state e (J e is the engine invariant, which every run satisfies:
-   C05_runs_satisfy_the_invariant): after an accepted complete / submit / remove / skip of an act, whatever happens next
+   C05_runs_satisfy_the_invariant): after an accepted complete / submit / remove / skip / abort of an act, whatever happens next
    -- any operations, any schedule, the same action again at once (two concurrent identical actions: one of them comes
    first) or later -- the act keeps the state that action gave it and every further action on it but cancel is rejected,
    changing nothing.  An action is one atomic operation of the model; the check-then-act race of two client threads
